@@ -90,11 +90,33 @@ fn gen_case(rng: &mut Rng) -> (Case, Vec<String>) {
             if cfg.ka <= 0 && rng.chance(3, 4) {
                 cfg.ka = 2000;
             }
-            reqs.push(Req { copt: *rng.pick(&[0u8, 0, 2]), ..plain(rng) });
+            let upload = rng.chance(1, 4);
+            if upload {
+                // chunked upload that the handler drops: the response is complete while the last
+                // chunks are still on their way; they are drained afterwards and the connection is
+                // idle (and must be covered by the keep-alive timer) from the poll that reads them
+                tags.push("first:dropped-chunked-upload".into());
+                reqs.push(Req { copt: 0, v11: true, body: 2, ..plain(rng) });
+                hs.push(vec![HAct::Drop, respond(0, *rng.pick(&[0usize, 4]))]);
+            } else {
+                reqs.push(Req { copt: *rng.pick(&[0u8, 0, 2]), ..plain(rng) });
+                hs.push(vec![respond(0, *rng.pick(&[0usize, 4]))]);
+            }
             reqs.push(plain(rng));
-            hs.push(vec![respond(0, *rng.pick(&[0usize, 4]))]);
             hs.push(vec![respond(0, 2)]);
-            b.at(t0, vec![Item::Req { i: 0 }], rng);
+            if upload {
+                b.at(t0, vec![Item::Req { i: 0 }, Item::Data { n: 5 }], rng);
+                let later = b.t + *rng.pick(&[3u64, 57, 203]);
+                if rng.chance(1, 2) {
+                    b.at(later, vec![Item::Data { n: 7 }], rng);
+                    let last = b.t + *rng.pick(&[3u64, 41]);
+                    b.at(last, vec![Item::End], rng);
+                } else {
+                    b.at(later, vec![Item::Data { n: 7 }, Item::End], rng);
+                }
+            } else {
+                b.at(t0, vec![Item::Req { i: 0 }], rng);
+            }
             let idle_from = b.t;
             let deadline = cached(idle_from) + cfg.ka.max(1000) as u64;
             let (when, tag) = around(deadline, rng);
@@ -313,11 +335,113 @@ fn emit_case(em: &mut Emitter, id: String, c: Case, fx: Fixes, mut tags: Vec<Str
     });
 }
 
+/// Wake-driven schedule (oracle only): a client that sends nothing; the connection future is polled
+/// once when it is accepted and afterwards ONLY when its waker has fired (as an executor does),
+/// while virtual time advances in 10 ms steps. `stale` = how long before the accept the date
+/// service last refreshed its cached clock (the deadline is computed from that cache).
+#[derive(serde::Serialize, serde::Deserialize, Clone, Debug)]
+struct WakeCase {
+    req_to: u64,
+    stale: u64,
+}
+const F31_CLASS: &str = "F31-stale-deadline-no-wake";
+
+/// (time at which the first bytes were written, wire prefix, polls, future resolved)
+fn run_wake(w: &WakeCase) -> (Option<u64>, String, usize, bool) {
+    use vh::h1conn::*;
+    let w = w.clone();
+    vh::exec::run_local(async move {
+        tokio::time::pause();
+        let io = ScriptIo::new();
+        let cfg = ConnCfg { client_request_timeout_ms: w.req_to, ..Default::default() };
+        let mut conn = Conn::start(cfg, io.clone(), |_r: actix_http::Request| async { Ok::<_, actix_http::Error>(actix_http::Response::ok()) }).await;
+        Conn::settle().await;
+        tokio::time::advance(std::time::Duration::from_millis(w.stale)).await;
+        let mut polls = 1;
+        let mut r = conn.poll();
+        let mut t = 0u64;
+        let mut at = None;
+        let mut wire = Vec::new();
+        let horizon = w.req_to + 2 * TICK_MS + 1000;
+        while t < horizon && r == ConnPoll::Pending {
+            tokio::time::advance(std::time::Duration::from_millis(10)).await;
+            Conn::settle().await;
+            t += 10;
+            if conn.woken() > 0 {
+                polls += 1;
+                r = conn.poll();
+            }
+            let out = io.take_written();
+            if at.is_none() && !out.is_empty() {
+                at = Some(t);
+            }
+            wire.extend_from_slice(&out);
+        }
+        (at, String::from_utf8_lossy(&wire[..wire.len().min(12)]).to_string(), polls, r != ConnPoll::Pending)
+    })
+}
+
+fn emit_wake(em: &mut Emitter, id: String, w: WakeCase, mut tags: Vec<String>) {
+    let r = catch(|| run_wake(&w));
+    tags.push("kind:wake-driven-silent-client".into());
+    tags.push(format!("req_to:{}", w.req_to));
+    tags.push(format!("cache-age:{}", w.stale));
+    // class predicate on the case: a configured duration below the refresh period of the cached clock
+    let cls = if w.req_to > 0 && w.req_to < TICK_MS { F31_CLASS } else { "" };
+    if !cls.is_empty() {
+        tags.push(format!("class:{cls}"));
+    }
+    let (show, ok, why) = match r {
+        Ok((at, wire, polls, done)) => {
+            let show = format!("first-bytes-at={at:?} wire={wire:?} polls={polls} resolved={done}");
+            // the property, with the slack of the cached clock: a silent client gets a 408 no later
+            // than the timeout after the accept (one 10 ms step of the driver + the timer wheel's
+            // rounding allowed) and not earlier than the timeout minus the slack
+            let verdict = if w.req_to == 0 {
+                if at.is_some() { Err("no request timeout configured but bytes were written to a silent client".to_string()) } else { Ok(()) }
+            } else {
+                match at {
+                    None => Err(format!("silent client, request timeout {} ms, cached clock {} ms old at accept: no 408 within {} ms (the future was polled {polls} time(s): no wake-up)", w.req_to, w.stale, w.req_to + 2 * TICK_MS + 1000)),
+                    Some(t) if !wire.starts_with("HTTP/1.1 408") => Err(format!("bytes at t={t} are not a 408: {wire:?}")),
+                    Some(t) if t > w.req_to + 20 => Err(format!("408 at t={t}, later than the request timeout {} ms", w.req_to)),
+                    Some(t) if t + TICK_MS + 20 < w.req_to => Err(format!("408 at t={t}, more than the slack before the request timeout {} ms", w.req_to)),
+                    Some(_) if !done => Err("408 written but the connection future did not resolve (no disconnect timeout configured)".to_string()),
+                    Some(_) => Ok(()),
+                }
+            };
+            (show, verdict.is_ok(), verdict.err().unwrap_or_default())
+        }
+        Err(p) => {
+            em.panics += 1;
+            (format!("PANIC {p}"), false, format!("implementation panicked: {p}"))
+        }
+    };
+    tags.sort();
+    em.emit(CaseOut {
+        id,
+        input: serde_json::json!({ "wake": w }),
+        coq_case: None,
+        expect: None,
+        sig: format!("wake {} {} {}", w.req_to, w.stale, show),
+        impl_show: show,
+        oracle_ok: ok,
+        oracle_why: why,
+        known_class: cls.to_string(),
+        nontrivial: w.req_to > 0,
+        tags,
+    });
+}
+
 fn main() {
     let args = parse_args();
     let mut em = Emitter::default();
     let fx = detect_fixes();
     for (id, j) in args.fixed_inputs() {
+        if let Some(w) = j.get("wake") {
+            let w: WakeCase = serde_json::from_value(w.clone()).expect("wake case");
+            emit_wake(&mut em, id, w, vec!["origin:fixed".into()]);
+            continue;
+        }
         let c: Case = serde_json::from_value(j).expect("case");
         emit_case(&mut em, id, c, fx, vec!["origin:fixed".into()]);
     }
@@ -329,6 +453,14 @@ fn main() {
             let (c, mut tags) = gen_case(&mut r);
             tags.push(format!("fixes:{}{}{}", fx.ctx as u8, fx.close as u8, fx.sd as u8));
             emit_case(&mut em, format!("gen-{i}"), c, fx, tags);
+        }
+        // wake-driven family: every request timeout against every age of the cached clock
+        let nw = if args.thorough() { 60 } else { 16 };
+        for i in 0..nw {
+            let mut r = rng.fork();
+            let req_to = *r.pick(&[0u64, 300, 300, 490, 500, 1000, 1000, 2000]);
+            let stale = *r.pick(&[0u64, 110, 290, 310, 400, 490]);
+            emit_wake(&mut em, format!("wake-{i}"), WakeCase { req_to, stale }, vec![]);
         }
     }
     em.finish();
